@@ -87,7 +87,7 @@ NOT_APPLICABLE = {
 ENGINES = {
     "memsim": ("sim/memsim", "seeded operation histories on the memory objects and register file vs. byte-addressed reference model"),
     "movesim": ("sim/movesim", "seeded histories of instruction/block moves and lookups vs. sequence model; relational emulation of original vs. reordered blocks"),
-    "emusim": ("sim/emusim", "RV64IMA programs stepped through the real loader/lifter/emulator with a simulated state provider and operator vs. an independent RISC-V interpreter"),
+    "emusim": ("sim/emusim", "RV64IMA programs stepped through the real loader/lifter/emulator with a simulated state provider and operator vs. an independent RISC-V interpreter; tool-tier runs take the real binary through consecutive emulations on a pty"),
     "loadsim": ("sim/loadsim", "simulated disk (truncation, torn/lost writes, bit flips, read errors) under the ELF loader and start-up, vs. an independent ELF reader; real binary as child process"),
     "uisim": ("sim/uisim", "whole interactive session under a simulated user, input stream and terminal (pty), vs. screen/UI models"),
 }
